@@ -40,6 +40,8 @@ static int run(int keying, int dec, const unsigned char *key, size_t kl, const u
     if (keying == 5) *skr = obj->set_key(alt, altlen);
     if (keying == 6) { obj->set_key(key, kl); *skr = obj->set_key(alt, 0); }   /* good key first, then the zero-length form */
     if (keying == 7) *skr = obj->set_key(alt, 0);                              /* key constructor was used (keying 1 path) below */
+    /* the object holds some other nonce first, so that "short nonces are left-padded with zeros" is visible */
+    { static const unsigned char prior[16] = { 0xA5, 0x5A, 0x11, 0x22, 0x33, 0x44, 0x55, 0x66, 0x77, 0x88, 0x99, 0xAA, 0xBB, 0xCC, 0xDD, 0xEE }; obj->set_nonce(prior, 16); }
     if (use_counter) obj->set_counter(counter); else obj->set_nonce(nonce, nlen);
     sizes[0] = obj->key_size(); sizes[1] = obj->tag_size(); sizes[2] = obj->nonce_size();
     if (dec) r1 = obj->decrypt(out1, in, len, ad, adlen);
